@@ -222,6 +222,7 @@ func c17Child(c *mon.Child) {
 		{"two-captures-one-scalar", func(k numKind) reflect.Type { return k.typ }, `@Tok @Tok`, "two", false},
 		{"two-captures-one-named-pointer", func(k numKind) reflect.Type { return reflect.PtrTo(k.named) }, `@Tok @Tok`, "two", false},
 		{"joined", func(k numKind) reflect.Type { return k.typ }, `@( Minus? Tok )`, "joined", false},
+		{"joined-ending-in-a-negation", func(k numKind) reflect.Type { return k.typ }, `@( Minus? ~Minus )`, "joined", false},
 		{"joined-named-pointer", func(k numKind) reflect.Type { return reflect.PtrTo(k.named) }, `@( Minus Minus? Tok | Tok )`, "joined", false},
 		{"scalar-elide-option", func(k numKind) reflect.Type { return k.typ }, `@Tok`, "scalar", true},
 		{"joined-elide-option", func(k numKind) reflect.Type { return k.typ }, `@( Minus? Tok )`, "joined", true},
